@@ -418,16 +418,12 @@ theorem runSeq_relinearize (H : RrgIdem) {l : List Tr} (hl : Closed l) :
         exact H false c1 c2 h1
 
 /-- `t1 | t2` runs `t1` then `t2` -/
-theorem or_eq_seq (H : RrgIdem) (a b : Tr) (c : R Circuit) :
+theorem or_eq_seq (_H : RrgIdem) (a b : Tr) (c : R Circuit) :
     runSeq c (linearize (a.or b)) = runSeq (runSeq c (linearize a)) (linearize b) := by
   unfold Tr.or
   simp only [linearize]
-  rw [linearizeList_append, runSeq_append, runSeq_relinearize H (linearize_closed a)]
-  congr 1
-  cases b with
-  | comp tb => simp [linearize]
-  | rrg x => simp [linearize, linearize.linearizeList]
-  | muo | mdg | meg => simp [linearize, linearize.linearizeList]
+  rw [linearizeList_append, runSeq_append]
+  cases a <;> cases b <;> simp [linearize, linearize.linearizeList]
 
 /-- `cleanup` is RRG, MUO, RRG, MDG, RRG (and MEG, RRG when heavy), in this order -/
 theorem cleanup_eq_seq (H : RrgIdem) (c : Circuit) (heavy : Bool) :
